@@ -228,16 +228,16 @@ theorem small_ans0_fit (c : Cfg) (B : Nat) (b : List Nat) (p : Bits)
     (h : encodeTaskGen c b = .ok p) : FrameFit B p := by
   have hmB : 262144 ≤ max (maxTransformLength B) (256 * 1024) := by omega
   by_cases hc : isCopy c b = true
-  · exact small_none_fit ⟨c.ck, c.trs, noneEnt, c.skipBlocks⟩ B b p hn hs rfl hbytes hb0 hB (by omega) (by
+  · exact small_none_fit ⟨c.ck, c.trs, noneEnt, c.skipBlocks, c.bs⟩ B b p hn hs rfl hbytes hb0 hB (by omega) (by
       unfold encodeTaskGen at h ⊢
-      have hc' : isCopy ⟨c.ck, c.trs, noneEnt, c.skipBlocks⟩ b = true := hc
+      have hc' : isCopy ⟨c.ck, c.trs, noneEnt, c.skipBlocks, c.bs⟩ b = true := hc
       rw [if_pos hc] at h
       rw [if_pos hc']
       exact h)
   · unfold encodeTaskGen at h
     have hck := ckWidth_le c.ck
     rw [if_neg hc] at h
-    obtain ⟨e, he, h8, hle⟩ := encodeWith_shape _ _ _ _ _ _ _ h
+    obtain ⟨e, he, h8, hle⟩ := encodeWith_shape _ _ _ _ _ _ _ _ h
     have hne : b ≠ [] := fun h => by rw [h] at hb0; exact Nat.lt_irrefl 0 hb0
     have hseq := seqLaw_small c.trs hn hs b.length (taskBlockLength B) (by omega)
       (Nat.le_trans hB (taskBlockLength_ge B))
@@ -252,8 +252,12 @@ theorem small_ans0_fit (c : Cfg) (B : Nat) (b : List Nat) (p : Bits)
     obtain ⟨hDt, _⟩ := seqForward_inD (IsBlock b.length) _ b hS ⟨hbytes, Nat.le_refl _⟩ hne
     rw [← hfS] at hDt
     rw [hent] at he
-    have hsz := Ans0Size.ans0Encode_length_le _ e hDt.1 he
-    have hpost := hDt.2
+    have hDf : IsBlock b.length (fallback c.bs (seqMaxLen c.trs b.length) b (seqForward (fwdStages c.trs b.length) b)).1 := by
+      rcases fallback_cases c.bs (seqMaxLen c.trs b.length) b (seqForward (fwdStages c.trs b.length) b) with h' | h' <;> rw [h']
+      · exact hDt
+      · exact ⟨hbytes, Nat.le_refl _⟩
+    have hsz := Ans0Size.ans0Encode_length_le _ e hDf.1 he
+    have hpost := hDf.2
     unfold FrameFit
     simp only [maxFrameBits]
     omega
